@@ -742,7 +742,8 @@ def check_scenario(spec, root, inst, acc, only_fault=None, verbose=False):
             vs = variants(p, how.get(p["a"]))
             nv = spec.get("variants", 2)
             # scenarios that get both ordinary exception variants also get the one `except Exception` cannot see
-            for exc in (vs[spec.get("vsel", 0):][:1] if nv == 1 else vs[:nv] + (("interrupt",) if nv >= 2 else ())):
+            for exc in (vs[spec.get("vsel", 0):][:1] if nv == 1 else vs[:nv] + (("interrupt",) if nv >= 2 else ())
+                        + (("garbage",) if p["kind"] == "rawread" else ())):
                 fault = [p["kind"], p["a"], p["b"], exc]
                 if only_fault is not None and fault != only_fault:
                     continue
@@ -919,6 +920,8 @@ def run(tier):
                 "exception_variants": {"read/rawread": ["OSError", "InjectedFault(RuntimeError)"],
                                        "open": ["OSError", "URLError (URL) / InjectedFault (package)"],
                                        "conv/sect": ["ValueError", "InjectedFault(RuntimeError)"],
+                                       "rawread, additionally": ["no exception: the read delivers bytes that are not "
+                                                                 "valid UTF-8 (the failure happens while decoding)"],
                                        "every kind, where both variants above are used": [
                                            "InjectedInterrupt(BaseException) - not an Exception, like "
                                            "KeyboardInterrupt / SystemExit"]},
